@@ -34,7 +34,9 @@ Definition mk_wcfg (T : float) (period cf0 : Z) : wcfg :=
   let cf := if cf0 <=? 1 then default_cold_factor else cf0 in
   let warning := go_u64_of_f (f_of_u64 period * T / f_of_u64 (u32 (cf - 1)))%float in
   let maxt := u64 (warning + go_u64_of_f (2 * f_of_u64 period * T / f_of_u64 (u32 (1 + cf)))%float) in
-  let slope := (f_of_u64 (u32 (cf - 1)) / T / f_of_u64 (u64 (maxt - warning)))%float in
+  (* an empty token range has no slope (fix of D9: the division by zero made every allowed value NaN) *)
+  let slope := if warning <? maxt then (f_of_u64 (u32 (cf - 1)) / T / f_of_u64 (u64 (maxt - warning)))%float
+               else 0%float in
   {| w_thr := T; w_period := period; w_cf := cf; w_warning := warning; w_max := maxt; w_slope := slope |}.
 
 (* IsValidRule for TokenCalculateStrategy = WarmUp (besides Threshold >= 0) *)
@@ -65,11 +67,10 @@ Definition cool_down (c : wcfg) (st : wst) (cur : Z) (pass_qps : float) : Z :=
   let nv :=
     if old <? w_warning c then
       go_i64_of_f (f_of_i64 old + (f_of_u64 cur - f_of_u64 (last_filled st)) * w_thr c / 1000)%float
-    else if old >? w_warning c then
+    else (* old >= warningToken (was >: a bucket exactly on the warning line never refilled) *)
       if (pass_qps <? f_of_u64 (go_u32_of_f (w_thr c) / w_cf c))%float
       then go_i64_of_f (f_of_i64 old + f_of_u64 (u64 (cur - last_filled st)) * w_thr c / 1000)%float
-      else old
-    else old in
+      else old in
   if nv <=? w_max c then nv else w_max c.
 
 Definition sync_token (c : wcfg) (st : wst) (now : Z) (pass_qps : float) : wst :=
